@@ -224,6 +224,8 @@ func runC18(c *engine.Ctx) {
 		c.Probe("accept_cells_visited")
 	}
 	c.Probe("cell." + base.kty)
+	c.Tag("table_cells_visited", cell)
+	c.Gauge("table_cells_total", len(c18Bases)*len(c18Algs))
 	fp = append(fp, "cell", base.name, alg)
 
 	// ---- (b) a key set x requested id, through the simulated disk
